@@ -197,6 +197,10 @@ def run(c, chk):
     from . import c01
     c01.element_counter(c, chk, pm.ParserModel(c), None, 'R5.5')
 
+    # ---- R5.6: an annotation reaches a fixed point: it is printed as "/* text */" and read back trimmed ----
+    from . import c15
+    c15.trailing_trim(c, chk, 'R5.6')
+
     # ---- R5.3 ---------------------------------------------------------------------------------
     cw = None
     for p in ex2.explore(opf):
